@@ -7,6 +7,10 @@ import ModVerif.Spec.ZipSpec
 import ModVerif.Proofs.ZipCheckFiles
 import ModVerif.Proofs.ZipNameOK
 import ModVerif.Proofs.ZipSubmodule
+import ModVerif.Proofs.ZipASpec
+import ModVerif.Proofs.ZipAClassify
+import ModVerif.Proofs.ZipAVendor
+import ModVerif.Proofs.ZipAPerm
 namespace ModVerif.Props.C17
 open ModVerif ModVerif.PathClean ModVerif.Zip ModVerif.ZipSpec ModVerif.Proofs.Zip
 
@@ -116,5 +120,121 @@ example : checkFiles exEnv exFiles false =
       invalid := [(B "a/B.go", .caseCollision), (B "./x", .notClean)], sizeError := false } := by decide +kernel
 
 example : IsModuleDir exFiles (B "sub/") := ⟨⟨B "sub/go.mod", .regular, 0, [], false⟩, by decide +kernel, rfl, by decide +kernel, by decide +kernel⟩
+
+
+/-! ### the classification is the documented rules (`ZipSpec.classify`, Proofs/ZipASpec.lean) -/
+
+/-- Which list a file lands in is determined only by the documented rules: for a list without repeated
+    paths, every file `f` (preceded in the list by `pre`) is reported in the list, and with the reason,
+    that `ZipSpec.classify` gives — the first applicable rule, in the documented order, over its path,
+    mode and size, the go version flag, the module roots of the list and the paths registered by `pre`:
+    a go.mod that cannot be examined, unclean, absolute → invalid; vendored (variant by `ge124`), below a
+    module root, `.hg_archival.txt` → omitted; rejected by CheckFilePath, mis-cased go.mod, lstat error →
+    invalid; collision of the path or one of its parent directories with what the earlier files
+    registered (different path with the same case-folded form / file vs directory / same file twice) →
+    invalid, blamed on the later file; symlink, irregular → omitted; oversized go.mod / LICENSE →
+    invalid; otherwise valid.  Nothing else is reported (parts 2–4; with `checkFiles_partition`: each path
+    exactly once).  The size error is set exactly when one of the files that reach the size rules
+    (`Class.sized`: valid, or oversized go.mod / LICENSE) has a negative size or their total exceeds
+    `MaxZipFile`; no file is blamed for it. -/
+theorem checkFiles_eq_classify (E : Env) (files : List FileInfo) (ge124 : Bool)
+    (hnd : (files.map (·.path)).Nodup) :
+    (∀ pre f post, files = pre ++ f :: post →
+      match classify E ge124 files pre f with
+      | .valid => f.path ∈ (checkFiles E files ge124).valid
+      | .omitted r => (f.path, r) ∈ (checkFiles E files ge124).omitted
+      | .invalid r => (f.path, r) ∈ (checkFiles E files ge124).invalid) ∧
+    (∀ p ∈ (checkFiles E files ge124).valid, ∃ pre f post, files = pre ++ f :: post ∧ f.path = p ∧
+      classify E ge124 files pre f = .valid) ∧
+    (∀ p r, (p, r) ∈ (checkFiles E files ge124).omitted → ∃ pre f post, files = pre ++ f :: post ∧ f.path = p ∧
+      classify E ge124 files pre f = .omitted r) ∧
+    (∀ p r, (p, r) ∈ (checkFiles E files ge124).invalid → ∃ pre f post, files = pre ++ f :: post ∧ f.path = p ∧
+      classify E ge124 files pre f = .invalid r) ∧
+    ((checkFiles E files ge124).sizeError = true ↔
+      (∃ x ∈ sizedSizes (classifyAll E ge124 files), x < 0) ∨
+      (MaxZipFile : Int) < (sizedSizes (classifyAll E ge124 files)).sum) :=
+  Proofs.ZipA.checkFiles_eq_classify E files ge124 hnd
+
+/-- `classifyAll` (used for the size rule above) lists every file with its `classify` -/
+theorem classifyAll_spec (E : Env) (ge124 : Bool) (files : List FileInfo) (f : FileInfo) (c : Class) :
+    (f, c) ∈ classifyAll E ge124 files ↔
+      ∃ pre post, files = pre ++ f :: post ∧ c = classify E ge124 files pre f :=
+  Proofs.ZipA.mem_classifyAll E ge124 files f c
+
+/-- The same in list form: the valid and omitted lists are, in order, the files classified valid resp.
+    omitted; the invalid list is the unreadable go.mod files (first loop) followed by the other files
+    classified invalid, in order. -/
+theorem checkFiles_lists (E : Env) (files : List FileInfo) (ge124 : Bool) (hnd : (files.map (·.path)).Nodup) :
+    (checkFiles E files ge124).valid =
+      ((classifyAll E ge124 files).filter (fun x => x.2 = .valid)).map (·.1.path) ∧
+    (checkFiles E files ge124).omitted = (classifyAll E ge124 files).filterMap Proofs.ZipA.oOf ∧
+    (checkFiles E files ge124).invalid =
+      (files.filter goModUnreadable).map (fun f => (f.path, Reason.lstat)) ++
+        (classifyAll E ge124 files).filterMap Proofs.ZipA.iOf := by
+  obtain ⟨_, s2, s3, s4, _⟩ := Proofs.ZipA.checkFilesSt_spec E files ge124 hnd
+  refine ⟨?_, s3, s4⟩
+  show (checkFilesSt E files ge124).cf.valid = _
+  rw [s2]
+  generalize classifyAll E ge124 files = cl
+  induction cl with
+  | nil => rfl
+  | cons x t ih =>
+    obtain ⟨f, c⟩ := x
+    cases c <;> simp [List.filterMap_cons, Proofs.ZipA.vOf] at ih ⊢ <;> exact ih
+
+/-- The vendoring rule, general form: the test of the file check is the documented rule, in the
+    go ≥ 1.24 variant (`vendor/modules.txt`, or a slash after a `vendor/` that starts the name or follows
+    a slash) and in the variant before go 1.24 (below a top-level `vendor/` as above; for an interior
+    `/vendor/` the package part is taken to start at byte 8 of the name, wherever the `/vendor/` is:
+    golang.org/issue/37397). -/
+theorem vendor_rule (name : Bytes) :
+    (isVendoredPackage name true = true ↔ Vendored124 name) ∧
+    (isVendoredPackage name false = true ↔ VendoredPre124 name) :=
+  ⟨Proofs.ZipA.vendor_rule_ge124 name, Proofs.ZipA.vendor_rule_pre124 name⟩
+
+/-- a reason that reports a collision -/
+def CollisionReason (r : Reason) : Prop := r = .caseCollision ∨ r = .fileAndDir ∨ r = .multiple
+
+/-- The report does not depend on the order of the list: for a list without repeated paths whose
+    report has no collision error, every permutation of the list yields the same valid, omitted and
+    invalid files (the lists are permutations of each other) and the same size error. -/
+theorem checkFiles_perm (E : Env) (files files' : List FileInfo) (ge124 : Bool) (hp : files'.Perm files)
+    (hnd : (files.map (·.path)).Nodup)
+    (hnc : ∀ p r, (p, r) ∈ (checkFiles E files ge124).invalid → ¬ CollisionReason r) :
+    (checkFiles E files' ge124).valid.Perm (checkFiles E files ge124).valid ∧
+    (checkFiles E files' ge124).omitted.Perm (checkFiles E files ge124).omitted ∧
+    (checkFiles E files' ge124).invalid.Perm (checkFiles E files ge124).invalid ∧
+    (checkFiles E files' ge124).sizeError = (checkFiles E files ge124).sizeError :=
+  Proofs.ZipA.checkFiles_perm E files files' ge124 hp hnd hnc
+
+/-- the same for the function as Go computes it: the go version flag, taken from the file whose path is
+    `go.mod`, does not depend on the order either -/
+theorem checkFilesV_perm (E : Env) (files files' : List FileInfo) (hp : files'.Perm files)
+    (hnd : (files.map (·.path)).Nodup)
+    (hnc : ∀ p r, (p, r) ∈ (checkFilesV E files).invalid → ¬ CollisionReason r) :
+    (checkFilesV E files').valid.Perm (checkFilesV E files).valid ∧
+    (checkFilesV E files').omitted.Perm (checkFilesV E files).omitted ∧
+    (checkFilesV E files').invalid.Perm (checkFilesV E files).invalid ∧
+    (checkFilesV E files').sizeError = (checkFilesV E files).sizeError :=
+  Proofs.ZipA.checkFilesV_perm E files files' hp hnd hnc
+
+/-! ### non-vacuity of the classification theorems -/
+
+/-- the classes of the example list: every kind of rule occurs (the collision is blamed on `a/B.go`) -/
+example : (classifyAll exEnv false exFiles).map (·.2) =
+    [.valid, .valid, .invalid .caseCollision, .omitted .submoduleFile, .omitted .submoduleFile,
+     .omitted .vendored, .omitted .symlink, .invalid .notClean] := by decide +kernel
+
+def exFilesNoColl : List FileInfo :=
+  [⟨B "go.mod", .regular, 2, B "hi", false⟩, ⟨B "a/b.go", .regular, 1, B "x", false⟩,
+   ⟨B "vendor/p/q.go", .regular, 1, B "z", false⟩, ⟨B "link", .symlink, 0, [], false⟩]
+
+/-- hypotheses of `checkFiles_perm` on an example: distinct paths, no collision error, a permutation -/
+example : (exFilesNoColl.map (·.path)).Nodup ∧
+    (∀ p r, (p, r) ∈ (checkFiles exEnv exFilesNoColl false).invalid → ¬ CollisionReason r) ∧
+    exFilesNoColl.reverse.Perm exFilesNoColl := by
+  refine ⟨by decide +kernel, ?_, List.reverse_perm _⟩
+  have : (checkFiles exEnv exFilesNoColl false).invalid = [] := by decide +kernel
+  intro p r h; rw [this] at h; cases h
 
 end ModVerif.Props.C17
